@@ -154,9 +154,14 @@ Definition enc_de_result (r : de_result) : list N :=
   | DePanic => [2%N]
   end.
 
+(** top-level form of the document: 1 = a map; anything else (another value, a truncated
+    text, or - 2 - the positional sequence of the field values) is not a map *)
+Definition p_doc_case : parser (transport * bool * jdoc) :=
+  _d <~ p_bool ;; tr <~ p_transport ;; top <~ p_N ;; d <~ p_list p_field ;;
+  p_ret (tr, (top =? 1)%N, d).
+
 Definition serde_model (inp : list N) : list N :=
-  match run_parser (_d <~ p_bool ;; tr <~ p_transport ;; top <~ p_bool ;; d <~ p_list p_field ;;
-                    p_ret (tr, top, d)) inp with
+  match run_parser p_doc_case inp with
   | None => BAD_CASE
   | Some (tr, top, d) => enc_de_result (deserialize tr top d)
   end.
@@ -166,8 +171,7 @@ Definition serde_model (inp : list N) : list N :=
 Definition last_field (k : jkey) (d : jdoc) : option jval :=
   match filter (fun p => jkey_eqb (fst p) k) (rev d) with (_, v) :: _ => Some v | [] => None end.
 Definition oracle_serde (inp obs : list N) : bool :=
-  match run_parser (_d <~ p_bool ;; tr <~ p_transport ;; top <~ p_bool ;; d <~ p_list p_field ;;
-                    p_ret (tr, top, d)) inp with
+  match run_parser p_doc_case inp with
   | None => false
   | Some (tr, top, d) =>
       match obs with
